@@ -12,7 +12,13 @@
 //	load  {num, den} / cpu {num, den}            inject a sample (num/den; -1/1 = not sampled)
 //	enter {id, res, ty, b}                       api.Entry("c07_<tr>_r<res>", WithTrafficType(ty), WithBatchCount(b));
 //	                                             an admitted entry stays open until exit {id}
-//	exit  {id}                                   Exit() (ignored if the entry was not admitted)
+//	exit  {id, err}                              THE completion of the entry: Exit(), or Exit(base.WithError(e)) when err
+//	                                             (ignored if the entry was not admitted; on an entry that has already
+//	                                             completed it is a late call, see below)
+//	trace {id, via}                              an error is reported on the open entry before it completes:
+//	                                             api.TraceError(entry, e) (via "api", default) or entry.SetError(e) ("entry")
+//	late  {id, how}                              a call on an entry that has ALREADY completed: how = "exit" ->
+//	                                             Exit(base.WithError(e)) again, "trace" -> api.TraceError(entry, e)
 //	tick  {d}                                    clock += d
 //
 // The inbound statistic node is a process-wide object created with the real clock: the driver runs at
@@ -24,6 +30,7 @@
 package main
 
 import (
+	"errors"
 	"fmt"
 	"math"
 	"os"
@@ -60,6 +67,18 @@ type run struct {
 	tr    int64
 	epoch int64 // absolute ms of relative time 0
 	open  map[int64]*base.SentinelEntry
+	done  map[int64]*base.SentinelEntry // entries that have completed (for late calls)
+}
+
+var errBiz = errors.New("c07: business error")
+
+// late performs a call on an entry that has already completed; nothing may change
+func late(e *base.SentinelEntry, how string) {
+	if how == "trace" {
+		api.TraceError(e, errBiz)
+	} else {
+		e.Exit(base.WithError(errBiz))
+	}
 }
 
 func buildRules(s hx.M) ([]*system.Rule, []hx.M) {
@@ -165,7 +184,7 @@ func main() {
 			r.finish()
 			// next epoch: a whole second, more than 20 s after everything that happened so far
 			epoch := (clk.NowMs()/1000 + 22) * 1000
-			r = &run{tr: hx.Int(s, "tr"), epoch: epoch, open: map[int64]*base.SentinelEntry{}}
+			r = &run{tr: hx.Int(s, "tr"), epoch: epoch, open: map[int64]*base.SentinelEntry{}, done: map[int64]*base.SentinelEntry{}}
 			t0 := hx.Int(s, "t")
 			clk.SetMs(epoch + t0)
 			system_metric.SetSystemLoad(system_metric.NotRetrievedLoadValue)
@@ -207,10 +226,38 @@ func main() {
 			tr.Emit(rec)
 		case "exit":
 			id := hx.Int(s, "id")
+			werr := s["err"] == true
 			if e, ok := r.open[id]; ok {
-				e.Exit()
+				if werr {
+					e.Exit(base.WithError(errBiz))
+				} else {
+					e.Exit()
+				}
 				delete(r.open, id)
-				tr.Emit(hx.M{"op": "exit", "id": id})
+				r.done[id] = e
+				tr.Emit(hx.M{"op": "exit", "id": id, "err": werr})
+			} else if e, ok := r.done[id]; ok && werr {
+				late(e, "exit")
+				tr.Emit(hx.M{"op": "late", "id": id, "how": "exit"})
+			}
+		case "trace":
+			id := hx.Int(s, "id")
+			if e, ok := r.open[id]; ok {
+				if hx.Str(s, "via") == "entry" {
+					e.SetError(errBiz)
+				} else {
+					api.TraceError(e, errBiz)
+				}
+				tr.Emit(hx.M{"op": "trace", "id": id})
+			} else if e, ok := r.done[id]; ok {
+				late(e, "trace")
+				tr.Emit(hx.M{"op": "late", "id": id, "how": "trace"})
+			}
+		case "late":
+			id, how := hx.Int(s, "id"), hx.Str(s, "how")
+			if e, ok := r.done[id]; ok {
+				late(e, how)
+				tr.Emit(hx.M{"op": "late", "id": id, "how": how})
 			}
 		case "tick":
 			clk.AdvanceMs(hx.Int(s, "d"))
